@@ -139,8 +139,8 @@ theorem nothing_written_any_fault (c : IoCfg) (fault : Option (Nat × Fault))
 theorem input_opened_read_only (c : IoCfg) (h : c.route ≠ .inPlace) :
     (program c).count .openIn = 1 ∧ ∀ call ∈ readPhase c, call ≠ .createDest := by
   constructor
-  · obtain ⟨route, preserve, input, force⟩ := c
-    cases route <;> cases input <;> cases preserve <;> cases force <;>
+  · obtain ⟨route, preserve, input, force, alsoDir⟩ := c
+    cases route <;> cases input <;> cases preserve <;> cases force <;> cases alsoDir <;>
       first | (exfalso; exact h rfl) | decide
   · intro call hc heq
     have := no_mutation_before_computed c call hc
@@ -202,8 +202,14 @@ theorem clean_exit (c : IoCfg) : (ioRun c none).exit = some (if c.input = .inval
   simpa [ioRun, cleanExit] using key (program c) 0 []
 
 /-- Non-vacuity: an in-place run with `--preserve` on an improvable file. -/
-example : program ⟨.inPlace, true, .improvable, false⟩ =
+example : program ⟨.inPlace, true, .improvable, false, false⟩ =
     [.dirStat, .statIn, .openIn, .readIn, .closeIn, .createDest, .chmodDest, .writeDest, .closeDest, .utimeDest] ∧
-    (ioRun ⟨.inPlace, true, .improvable, false⟩ (some (3, .kill))).succeeded = [.dirStat, .statIn, .openIn] := by decide
+    (ioRun ⟨.inPlace, true, .improvable, false, false⟩ (some (3, .kill))).succeeded = [.dirStat, .statIn, .openIn] := by decide
+
+/-- `--pretend` together with `--dir`: the directory may be created (the statement exempts it), nothing
+    else is, and the write phase is empty -/
+example : program ⟨.pretend, false, .improvable, false, true⟩ =
+    [.outDirExists, .mkdirOut, .dirStat, .openIn, .readIn, .closeIn] ∧
+    writePhase ⟨.pretend, false, .improvable, false, true⟩ = [] := by decide
 
 end OxiModel.C12
